@@ -76,14 +76,11 @@ def mentioned (cs : List Conn) (k : String) : Bool :=
      | .proc t _ => t == k
      | _ => false)
 
-/-- Result of a reference walk. `stop` = key of the processor that answered the request;
-    `pending` = at that moment some already-started fan-out still had connections to follow
-    (the class of finding F04b). -/
+/-- Result of a reference walk. `stop` = key of the processor that answered the request. -/
 structure SRes where
   trace : List Event := []
   stop : Option String := none
   err : Option ExecErr := none
-  pending : Bool := false
 deriving DecidableEq, Repr, Inhabited
 
 def swalkList (rec : String → SRes) : List String → SRes
@@ -91,10 +88,10 @@ def swalkList (rec : String → SRes) : List String → SRes
   | t :: ts =>
     let r := rec t
     if r.err.isSome then r
-    else if r.stop.isSome then { r with pending := r.pending || !ts.isEmpty }
+    else if r.stop.isSome then r
     else
       let rest := swalkList rec ts
-      { trace := r.trace ++ rest.trace, stop := rest.stop, err := rest.err, pending := r.pending || rest.pending }
+      { trace := r.trace ++ rest.trace, stop := rest.stop, err := rest.err }
 
 /-- reference walk of direction `d` of flow `f` from processor `k` -/
 def swalk (f : SFlow) (o : Oracle) (d : Dir) : Nat → String → SRes
@@ -132,16 +129,16 @@ def sall (o : Oracle) (d : Dir) (fuel : Nat) : List SFlow → SRes
       { trace := r.trace ++ rest.trace, err := rest.err }
 
 /-- user flows on a request: stop at the first flow in which a processor answers -/
-def suserReq (o : Oracle) (fuel : Nat) : List SFlow → List Event × Option (SFlow × String) × Option ExecErr × Bool
-  | [] => ([], none, none, false)
+def suserReq (o : Oracle) (fuel : Nat) : List SFlow → List Event × Option (SFlow × String) × Option ExecErr
+  | [] => ([], none, none)
   | f :: fs =>
     let r := sflow f o .req fuel
-    if r.err.isSome then (r.trace, none, r.err, false)
+    if r.err.isSome then (r.trace, none, r.err)
     else match r.stop with
-      | some k => (r.trace, some (f, k), none, r.pending)
+      | some k => (r.trace, some (f, k), none)
       | none =>
-        let (t, sc, e, p) := suserReq o fuel fs
-        (r.trace ++ t, sc, e, p)
+        let (t, sc, e) := suserReq o fuel fs
+        (r.trace ++ t, sc, e)
 
 def suserRes (o : Oracle) (fuel : Nat) (sc : Option (String × String)) : List SFlow → SRes
   | [] => {}
@@ -159,7 +156,6 @@ structure STxn where
   trace : List Event := []
   err : Option ExecErr := none
   answered : Option (SFlow × String) := none   -- the flow and processor that answered the request
-  pending : Bool := false
 deriving Repr, Inhabited
 
 def sresponse (c : SCfg) (o : Oracle) (fuel : Nat) (sc : Option (String × String)) : List Event × Option ExecErr :=
@@ -175,37 +171,26 @@ def stxn (c : SCfg) (o : Oracle) (fuel : Nat) : Dir → STxn
   | .req =>
     let a := sall o .req fuel c.start
     if a.err.isSome then { trace := a.trace, err := a.err } else
-    let (bt, sc, be, p) := suserReq o fuel c.user
+    let (bt, sc, be) := suserReq o fuel c.user
     if be.isSome then { trace := a.trace ++ bt, err := be } else
     let e := sall o .req fuel c.finish
-    if e.err.isSome then { trace := a.trace ++ bt ++ e.trace, err := e.err, answered := sc, pending := p } else
+    if e.err.isSome then { trace := a.trace ++ bt ++ e.trace, err := e.err, answered := sc } else
     match sc with
     | none => { trace := a.trace ++ bt ++ e.trace }
     | some (f, k) =>
       let (rt, re) := sresponse c o fuel (some (f.name, k))
-      { trace := a.trace ++ bt ++ e.trace ++ rt, err := re, answered := sc, pending := p }
+      { trace := a.trace ++ bt ++ e.trace ++ rt, err := re, answered := sc }
 
-/-! ### known defects of the engine, as decidable classes of (configuration, oracle) -/
+/-! ### known defect of the engine, as a decidable class of (configuration, oracle) -/
 
-/-- The class of a transaction with respect to the known findings (first that applies):
-  * F04b — a processor answered the request while an enclosing fan-out still had connections to
-           follow (the engine keeps walking them and may forget the answer);
+/-- The class of a transaction with respect to the open finding:
   * F04c — the answering processor has no node in the response direction (the engine aborts the
-           transaction with "failed to get response node");
-  * F04d — the answering processor has a response node without outgoing connection while the
-           response direction has a stream entry (the engine runs the whole response flow from the entry);
-  * F04a — the continuation leads to a processor but the response direction has no stream entry
-           (the engine returns before looking at the answering node). -/
+           transaction with "failed to get response node").
+  (F04a, F04b, F04d, F04e were repaired in /repo; their classes are gone.) -/
 def finding (s : STxn) : Option String :=
   match s.answered with
   | none => none
-  | some (f, k) =>
-    if s.pending then some "F04b"
-    else if !mentioned f.res k then some "F04c"
-    else match firstConn f.res k, entry f.res with
-      | none, some _ => some "F04d"
-      | some (.proc _ _), none => some "F04a"
-      | _, _ => none
+  | some (f, k) => if !mentioned f.res k then some "F04c" else none
 
 /-- System-flow processors never answer the request themselves (they are quota bookkeeping). -/
 def sysQuiet (c : SCfg) (o : Oracle) : Bool :=
@@ -236,7 +221,7 @@ def holdsObs (c : SCfg) (users : List String) (o : Oracle) (d : Dir) (fuel : Nat
   let s := stxn c o fuel d
   observed == observable users s.trace && err == s.err
 
-/-- System flow of one location as it SHOULD be: every processor of the group wired in sequence,
+/-- System flow of one location: every processor of the group wired in sequence,
     `stream start → p₁ → p₂ → … → pₙ → stream end`. -/
 def chainFrom : String → List String → List Conn
   | k, [] => [⟨.proc k "", gEnd⟩]
@@ -245,11 +230,6 @@ def chainFrom : String → List String → List Conn
 def chainConns : List String → List Conn
   | [] => []
   | k :: ks => ⟨gStart, .proc k ""⟩ :: chainFrom k ks
-
-/-- Finding F04e: some filter group has two or more processors at one location (two quotas with the
-    same filter): the engine wires only the last one, the others never run. -/
-def mergedGroup (qs : List Quota) : Bool :=
-  decide (2 ≤ (qs.filter (·.wild)).length) || decide (2 ≤ (qs.filter (!·.wild)).length)
 
 /-- Spec view of a configuration: the flows that take part, in engine order. -/
 def specCfg (c : Cfg) (order : List String) : SCfg :=
